@@ -279,6 +279,17 @@ fn branch_state_programs() -> Vec<(String, Vec<f64>, String)> {
          vec![10101.0, 20202.0, 30303.0, 40404.0], "tuple match with stateful arms, last arm".to_string()),
     ]
 }
+fn live_counts(src: &str, n: usize) -> Result<((usize, usize), (usize, usize)), String> {
+    use mimium_lang::{Config, ExecContext};
+    let mut ctx = ExecContext::new([].into_iter(), None, Config::default());
+    ctx.prepare_machine(src).map_err(|e| e.iter().map(|x| x.get_message()).collect::<Vec<_>>().join("; "))?;
+    let machine = ctx.get_vm_mut().ok_or("no vm")?;
+    let _ = machine.execute_main();
+    for _ in 0..n { if machine.execute_entry("dsp") < 0 { return Err("dsp failed".into()); } }
+    let a = (machine.closures.len(), machine.heap.len());
+    for _ in 0..n { if machine.execute_entry("dsp") < 0 { return Err("dsp failed".into()); } }
+    Ok((a, (machine.closures.len(), machine.heap.len())))
+}
 fn run_vm_sched(src: &str, times: usize) -> Result<Vec<f64>, String> {
     use mimium_audiodriver::{backends::local_buffer::LocalBufferDriver, driver::{Driver, RuntimeData}};
     use mimium_lang::{Config, ExecContext, plugin::Plugin};
@@ -620,6 +631,25 @@ fn main() {
         let n: usize = args[4].parse().unwrap();
         let m: usize = args[5].parse().unwrap();
         match run_hotswap(&a, &b, n, m) { Ok(v) => println!("OUT {v:?}"), Err(e) => println!("ERR {e}") }
+        return;
+    }
+    if args.get(1).map(|s| s.as_str()) == Some("closure-growth") {
+        // known finding F13 (C12): programs whose live closure / heap object counts grow with every dsp call
+        let progs: Vec<(&str, &str)> = vec![
+            ("closure bound by let and called", "fn dsp(){\n    let x = 9.0\n    let f = | | { x - 5.0 }\n    f()\n}\n"),
+        ];
+        for (desc, src) in progs {
+            match live_counts(src, 64) {
+                Ok(((c1, h1), (c2, h2))) => {
+                    if c1 != c2 || h1 != h2 {
+                        println!("FAILS C12[live closures and heap objects after sample N == after sample 2N] `{desc}`: (closures, heap objects) = ({c1}, {h1}) after 64 samples, ({c2}, {h2}) after 128");
+                        return;
+                    }
+                }
+                Err(e) => { println!("HOLDS (program rejected: {e})"); return; }
+            }
+        }
+        println!("HOLDS");
         return;
     }
     if args.get(1).map(|s| s.as_str()) == Some("run-src") {
